@@ -104,7 +104,17 @@ def r4(ctx):
     nb = prog.body("master::poll::PollMap::next")
     for b, si, st, e in ret_sites(nb, ctx.sym(nb)):
         if variant_name(e) == "Now":
-            ctx.require_guards(nb, b.idx, [("poll.is_ready(now)", g_bool(lambda x: mentions_call(x, r"Poll::is_ready$"), True))], "PollMap::next:Now", "returning a poll to run")
+            def found_ready(g):
+                # the same selection written as polls.values().find(|p| p.is_ready(now)): a poll found by that predicate is ready
+                if g.kind != "is" or g.name != "Some" or not mentions_call(g.a, r"Iterator::find$|::find$"):
+                    return False
+                for x in expr_walk(g.a):
+                    if x[0] == "closure":
+                        cb_ = prog.bodies.get(x[1])
+                        if cb_ is not None and call_sites(cb_, r"Poll::is_ready$"):
+                            return True
+                return False
+            ctx.require_guards(nb, b.idx, [("poll.is_ready(now)", g_any(g_bool(lambda x: mentions_call(x, r"Poll::is_ready$"), True), found_ready))], "PollMap::next:Now", "returning a poll to run")
     cb = prog.body("master::poll::PollMap::complete")
     ctx.check(bool(call_sites(cb, r"Poll::reset_next$")), "PollMap::complete", "complete reschedules from now", cb.where(line=cb.line))
     # both completion and failure of a periodic poll reschedule it
